@@ -1,3 +1,24 @@
-(* Engine entry points for C03: run_c03 sub-op case.  (stub until the property's model exists) *)
-From Pan Require Import Base.Common Base.Sx.
-Definition run_c03 (sub : Z) (x : sx) : sx := SL [SZ (-1)].
+(* Engine entry points for C03 / C14: matching. *)
+From Pan Require Import Base.Common Base.Sx Model.MetricTable Model.Metrics Model.Matcher Run.Codec.
+
+(* scores travel as reduced fractions: structural equality is the harness' identity on doubles *)
+Definition dec_cand (s : sx) : qcand := (sQ (sNth 0 s), (sZ (sNth 1 s), sZ (sNth 2 s))).
+Definition enc_cand (c : qcand) : sx := SL [ofQ (fst c); SZ (cref c); SZ (cpred c)].
+Definition dec_arr2 (s : sx) : arr2 := map sZZ (sL s).
+
+(* sub 1: (decr m2o thr cands) -> model's matching *)
+Definition run_naive (x : sx) : sx :=
+  ofRes (fun M => SL (map enc_cand M))
+    (naive_match (sB (sNth 0 x)) (sB (sNth 1 x)) (sQ (sNth 2 x)) (map dec_cand (sL (sNth 3 x)))).
+(* sub 2: (decr m2o thr cands matching) -> check_valid *)
+Definition run_check_valid (x : sx) : sx :=
+  let decr := sB (sNth 0 x) in let thr := sQ (sNth 2 x) in
+  ofB (check_valid (fun s => beats decr s thr) (better_eq decr) Qeq_struct (sB (sNth 1 x))
+         (map dec_cand (sL (sNth 3 x))) (map dec_cand (sL (sNth 4 x)))).
+(* sub 3: (metric arr2) -> candidates with scores, in the code's pre-sort order *)
+Definition run_candidates (x : sx) : sx :=
+  SL (map enc_cand (candidates (metric_of_Z (sZ (sNth 0 x))) (dec_arr2 (sNth 1 x)))).
+
+Definition run_c03 (sub : Z) (x : sx) : sx :=
+  if sub =? 1 then run_naive x else if sub =? 2 then run_check_valid x
+  else if sub =? 3 then run_candidates x else SL [SZ (-1)].
